@@ -117,4 +117,61 @@ mod __verif_kani {
     c16_block!(c16_find_block_scalar_end_from0, 0, 2);
     //@ kind=B props=C16 tier=thorough bound=buffer_len=51,start=3,min_indent=4 fn=yaml::simd::x86::find_block_scalar_end stubs=avx2_enabled : same from start 3 with min_indent 4
     c16_block!(c16_find_block_scalar_end_from3, 3, 4);
+
+    // ---- cross-checks of the intrinsic lane model used by the Verus unit c16_kernels (verus/speclib_simd.rs)
+    //@ kind=P props=C16 fn=_mm256_set1_epi8,_mm256_loadu_si256,_mm256_cmpeq_epi8,_mm256_or_si256,_mm256_movemask_epi8 : lane semantics assumed by the Verus stubs, on the real AVX2 intrinsics, for ALL 32-byte vectors a, b and every byte c: loadu reads lane i from byte i; set1 broadcasts; cmpeq lane is 0xFF/0x00; or is lane-wise; bit i of movemask is the top bit of lane i
+    #[kani::proof]
+    pub fn c16_intrinsic_lanes_256() {
+        let a: [u8; 32] = kani::any(); let b: [u8; 32] = kani::any(); let c: u8 = kani::any();
+        let i: usize = kani::any(); kani::assume(i < 32);
+        unsafe {
+            let va = _mm256_loadu_si256(a.as_ptr().cast::<__m256i>());
+            let vb = _mm256_loadu_si256(b.as_ptr().cast::<__m256i>());
+            let vc = _mm256_set1_epi8(c as i8);
+            let e1 = _mm256_cmpeq_epi8(va, vc);
+            let e2 = _mm256_cmpeq_epi8(vb, vc);
+            let o = _mm256_or_si256(e1, e2);
+            let mut out = [0u8; 32];
+            _mm256_storeu_si256(out.as_mut_ptr().cast::<__m256i>(), va); assert!(out[i] == a[i]);
+            _mm256_storeu_si256(out.as_mut_ptr().cast::<__m256i>(), vc); assert!(out[i] == c);
+            _mm256_storeu_si256(out.as_mut_ptr().cast::<__m256i>(), e1); assert!(out[i] == if a[i] == c { 0xFF } else { 0 });
+            let l1 = out[i];
+            _mm256_storeu_si256(out.as_mut_ptr().cast::<__m256i>(), e2); let l2 = out[i];
+            _mm256_storeu_si256(out.as_mut_ptr().cast::<__m256i>(), o); assert!(out[i] == l1 | l2);
+            let m1 = _mm256_movemask_epi8(e1) as u32;
+            let mo = _mm256_movemask_epi8(o) as u32;
+            let mv = _mm256_movemask_epi8(va) as u32;
+            assert!(((m1 >> i) & 1 == 1) == (a[i] == c));
+            assert!(((mo >> i) & 1 == 1) == (a[i] == c || b[i] == c));
+            assert!(((mv >> i) & 1 == 1) == (a[i] >= 0x80));
+        }
+    }
+    //@ kind=P props=C16 fn=_mm_set1_epi8,_mm_loadu_si128,_mm_cmpeq_epi8,_mm_or_si128,_mm_movemask_epi8 : the same lane semantics on the real SSE2 intrinsics for ALL 16-byte vectors; the movemask result is below 2^16
+    #[kani::proof]
+    pub fn c16_intrinsic_lanes_128() {
+        let a: [u8; 16] = kani::any(); let b: [u8; 16] = kani::any(); let c: u8 = kani::any();
+        let i: usize = kani::any(); kani::assume(i < 16);
+        unsafe {
+            let va = _mm_loadu_si128(a.as_ptr().cast::<__m128i>());
+            let vb = _mm_loadu_si128(b.as_ptr().cast::<__m128i>());
+            let vc = _mm_set1_epi8(c as i8);
+            let e1 = _mm_cmpeq_epi8(va, vc);
+            let e2 = _mm_cmpeq_epi8(vb, vc);
+            let o = _mm_or_si128(e1, e2);
+            let mut out = [0u8; 16];
+            _mm_storeu_si128(out.as_mut_ptr().cast::<__m128i>(), va); assert!(out[i] == a[i]);
+            _mm_storeu_si128(out.as_mut_ptr().cast::<__m128i>(), vc); assert!(out[i] == c);
+            _mm_storeu_si128(out.as_mut_ptr().cast::<__m128i>(), e1); assert!(out[i] == if a[i] == c { 0xFF } else { 0 });
+            let l1 = out[i];
+            _mm_storeu_si128(out.as_mut_ptr().cast::<__m128i>(), e2); let l2 = out[i];
+            _mm_storeu_si128(out.as_mut_ptr().cast::<__m128i>(), o); assert!(out[i] == l1 | l2);
+            let m1 = _mm_movemask_epi8(e1) as u32;
+            let mo = _mm_movemask_epi8(o) as u32;
+            let mv = _mm_movemask_epi8(va) as u32;
+            assert!(m1 < 0x1_0000 && mo < 0x1_0000 && mv < 0x1_0000);
+            assert!(((m1 >> i) & 1 == 1) == (a[i] == c));
+            assert!(((mo >> i) & 1 == 1) == (a[i] == c || b[i] == c));
+            assert!(((mv >> i) & 1 == 1) == (a[i] >= 0x80));
+        }
+    }
 }
